@@ -55,6 +55,9 @@ Inductive note :=
 | NDel (o : nat)      (* OnDelete(obj) *)
 | NSync (o : nat).    (* OnUpdate(obj,obj): replay / resync *)
 
+Definition note_obj (n : note) : nat :=
+  match n with NAdd x | NUpd x | NDel x | NSync x => x end.
+
 (* a delivery: (subscription the handler was added through, handler id, notification) *)
 Definition delivery : Type := nat * nat * note.
 Definition d_sub (d : delivery) : nat := fst (fst d).
